@@ -445,7 +445,7 @@ func (w *World) RefEntries(m Model) []ref.Entry {
 
 // RefRoot is the root the independent reference computes for a model.
 func (w *World) RefRoot(m Model) (ref.Root, map[string][]byte) {
-	if w.Cfg.Format == ref.FormatV1 && w.Cfg.Marshaler == "custom" {
+	if w.Cfg.Format == ref.FormatV1 && w.Cfg.Marshaler != "json" {
 		panic("reference builder does not cover the custom v1 node encoding")
 	}
 	return ref.Build(w.RefEntries(m), w.Cfg.BF, w.Cfg.Format)
